@@ -50,7 +50,13 @@ def ctor_strategy(invalid=True):
     near = st.tuples(char_st(), st.integers(-3, 40)).map(
         lambda t: (['c', t[0]], ['c', chr(max(0, min(0x10FFFF, ord(t[0]) + t[1])))]))
     pair = st.one_of(st.tuples(a, a), near, near)
+    def cluster(t):
+        base, offs = t
+        return [['c', chr(max(0, min(0x10FFFF, ord(base) + o)))] for o in offs]
+    clustered = st.tuples(st.one_of(char_st(), st.sampled_from(list('éĀ٣אΩ한\U0001F600~\x7f\x80'))),
+                          st.lists(st.integers(-4, 4), min_size=2, max_size=6)).map(cluster)
     return st.one_of(
+        clustered.map(lambda xs: ['from', xs]), clustered.map(lambda xs: ['butfrom', xs]),
         frm.map(lambda xs: ['from', xs]), frm.map(lambda xs: ['from', xs]), frm.map(lambda xs: ['butfrom', xs]),
         pair.map(lambda p: ['between', p[0], p[1]]), pair.map(lambda p: ['between', p[0], p[1]]),
         pair.map(lambda p: ['butbetween', p[0], p[1]]),
